@@ -13,3 +13,6 @@ func VerifC02_Script_IAII() { verifFwScript("C02", false, []string{"IAII"}) }
 func VerifC02_Script_IIAI() { verifFwScript("C02", false, []string{"IIAI"}) }
 func VerifC02_Script_IDAI() { verifFwScript("C02", false, []string{"IDAI"}) }
 func VerifC02_Script_IIII() { verifFwScript("C02", false, []string{"IIII"}) }
+
+// three Interests over three faces (two downstreams and the upstream): loops through a second downstream
+func VerifC02_Script_III() { verifFwScript("C02", false, []string{"III"}) }
